@@ -5,6 +5,7 @@ CONSTANTS
   Dev_NoSessionCheck = FALSE
   Dev_NilSession = FALSE
   Dev_UnknownItem = FALSE
+  Dev_BlockedFanout = FALSE
   SvcFilter = {"CreateSubscription","CreateMonitoredItems","SetMonitoringMode","DeleteMonitoredItems","DeleteSubscriptions","CloseSession","Publish","Read","Browse","Write","ActivateSession"}
 SPECIFICATION Spec
 INVARIANT InvEmit
